@@ -61,16 +61,49 @@ def oracle(case, rec):
                 refused = rec["load"].startswith("err:Untrusted")
                 if rows[0]["safe"] == refused:
                     out.append(("root-verdict", f"root row safe={rows[0]['safe']} but load with trusted={rec['T']} gives {rec['load'][:80]}"))
-    if rec["vis"].startswith("ok:") and rec["rows"].startswith("ok:"):
+    if rec["rows"].startswith("ok:"):
         rows = parse_rows(rec["rows"][3:])
-        if rows and case["show"] == "all":
+        preorder = bool(rows) and all(b["level"] <= a["level"] + 1 for a, b in zip(rows, rows[1:]))
+        if preorder and not rec["vis"].startswith("ok:"):
+            # the row generator ran to the end and yielded a pre-order walk: the default sink must complete in every show mode
+            # (coq/props/C13.v: C13_preorder_never_raises; before the repair of D24 show='trusted' raised ValueError here)
+            out.append(("raises-on-preorder-stream", f"row generator completed ({len(rows)} rows, pre-order) but visualize(show={case['show']!r}) gave {rec['vis'][:60]}"))
+        if preorder and rec["vis"].startswith("ok:"):
+            # what must be printed, stated on the tree and not on _traverse_tree's loop: the root row, and every other row the
+            # filter admits all of whose ancestors below the root the filter admits too (C13_hidden_subtrees_cut)
+            kept = kept_rows(rows, case["show"])
             lines = rec["vis"][3:].split("\n")
-            if len(lines) == len(rows):
-                for ln, r in zip(lines, rows):
-                    if (not r["self"]) != ln.endswith(" [UNSAFE]"):
-                        out.append(("tag-mismatch", f"line {ln!r} vs is_self_safe={r['self']}"))
+            if len(lines) != len(kept):
+                out.append(("printed-rows-vs-ancestors", f"{len(lines)} lines printed, {len(kept)} rows are visible together with all their ancestors (show={case['show']})"))
+            else:
+                for ln, r in zip(lines, kept):
+                    if not ln.endswith(f"{r['key']}: {r['val']}" + ("" if r["self"] else " [UNSAFE]")):
+                        out.append(("tag-mismatch", f"line {ln!r} vs row {r['key']}: {r['val']} is_self_safe={r['self']}"))
                         break
     return out
+
+
+def row_visible(r, show):
+    return True if show == "all" else (not r["safe"] if show == "untrusted" else r["self"])
+
+
+def kept_rows(rows, show):
+    """rows of a pre-order walk -> the rows printed: parents by a stack; a row is kept iff its parent is kept and the filter
+    admits it; the root row is always kept"""
+    kept, stack = [], []          # stack: (level, kept?) of the current ancestors
+    for i, r in enumerate(rows):
+        while stack and stack[-1][0] >= r["level"]:
+            stack.pop()
+        k = True if i == 0 else (row_visible(r, show) and (stack[-1][1] if stack else True))
+        stack.append((r["level"], k))
+        if k:
+            kept.append(r)
+    return kept
+
+
+def hidden_parent_shown_child(rows, show):
+    """the situation of D24: a row the filter hides directly above a deeper row the filter admits"""
+    return any(not row_visible(a, show) and b["level"] > a["level"] and row_visible(b, show) for a, b in zip(rows[1:], rows[2:]))
 
 
 def PROBE_CASES(snap=None):
@@ -106,6 +139,10 @@ def run(R, only_cases=None):
     for c, r in zip(cases, recs):
         R.count("show:" + c["show"])
         R.count("vis:" + r["vis"].split(":")[0] + (":" + r["vis"].split(":")[1] if r["vis"].startswith("err") else ""))
+        prs = parse_rows(r["rows"][3:]) if r["rows"].startswith("ok:") else None
+        if prs and hidden_parent_shown_child(prs, c["show"]):
+            # non-vacuity of the D24 repair on generated archives: the subtree of the hidden row is skipped (text vs model above)
+            R.count("hidden-parent-shown-child:" + c["show"] + ":" + r["vis"].split(":")[0])
         for item in oracle(c, r):
             kind, what = item[0], item[1]
             sig = {"kind": kind, "show": c["show"]}
@@ -117,18 +154,24 @@ def run(R, only_cases=None):
     if only_cases is None:
         total_on_dumps(R, rnd)
     R.notes["rule"] = ("(a) generated schemas (all loaders, valid + malformed, shared/cyclic ids) x trusted spec x show mode: default-sink text and raw rows vs model; "
-                       "(b) real dumps of generated values x 3 trust settings x 3 show modes must complete; non-trivial = inspection succeeded")
+                       "(b) real dumps of generated values x 3 trust settings x 3 show modes must ALL complete (every dumped archive, nine calls); "
+                       "(c) on the implementation's own output: a completed pre-order row stream never makes the default sink raise, and the lines printed are the rows "
+                       "admitted by the filter together with all their ancestors; non-trivial = inspection succeeded")
+
+
+NINE = sorted(f"{show}/{t}" for show in ("all", "untrusted", "trusted") for t in ("none", "full", "half"))
 
 
 def total_on_dumps(R, rnd):
     n = 150 if R.tier == "quick" else 1500
-    # fixed witnesses of the open findings D24 / D15c first, then generated values
+    # fixed witnesses of the findings D24 (repaired: must complete in every mode) / D15c first, then generated values
     specs = [["partial", "np.add", [["int", 1]], []], ["dict", [[["str", "key_types"], ["int", 1]]]],
              # D32 (repaired): keys of an untrusted type used to make visualize raise "invalid 'key_types' node"
              ["dict", [[["none"], ["int", 1]]]], ["dict", [[["mystr", "a"], ["int", 1]]]], ["dict", [[["myint", 3], ["list", [["int", 1]]]]]],
              ["list", [["dict", [[["str", "a"], ["int", 1]], [["none"], ["list", [["int", 2]]]]]]]],
-             # the witnesses of coq/props/C13.v: C13_total_on_dumps_trusted_refuted ([partial(np.add, 1)], D24) and
-             # C13_total_nonvacuous (a list shared three times, a dict with a slice, a partial: completes in every mode)
+             # the witnesses of coq/props/C13.v: C13_trusted_witness_repaired ([partial(np.add, 1)], the former witness of D24:
+             # show='trusted' now prints the root row only) and C13_total_nonvacuous (a list shared three times, a dict with a
+             # slice, a partial: completes in every mode)
              ["list", [["partial", "np.add", [["int", 1]], []]]],
              ["tuple", [["list", [["int", 1], ["str", "x"]]],
                         ["dict", [[["str", "a"], ["ref", 0]], [["int", 3], ["slice", ["int", 1], ["none"], ["int", 2]]]]],
@@ -150,6 +193,12 @@ def total_on_dumps(R, rnd):
         for k, rec in enumerate(o):
             spec = chunks[s][k]
             R.case({"dump-visualize": spec}, nontrivial=rec.get("dump") == "ok")
+            if rec.get("dump") == "ok" and rec.get("load") != "ok":
+                # impl_codec's roundtrip stops at a failing load(trusted=get_untrusted_types): such an archive is not visualized here
+                R.count("dumpvis:not-attempted:load-" + str(rec.get("load")))
+            elif rec.get("dump") == "ok" and sorted(rec.get("vis") or {}) != NINE:
+                # every archive that dumps wrote and load accepts is visualized in all nine (show x trusted) combinations
+                R.obligation_broken("C13 total_on_dumps", f"visualize was not attempted in all nine (show x trusted) combinations for {spec!r}: {sorted(rec.get('vis') or {})}")
             for key, v in (rec.get("vis") or {}).items():
                 nvis += 1
                 R.count("dumpvis:" + v.split(":")[0] + (":" + v.split(":")[1] if v != "ok" else ""))
@@ -172,6 +221,8 @@ def replay(R, rep):
         R.prove("C13")
         p = C.run_impl("impl_codec.py", input_obj={"mode": "roundtrip", "cases": [{"cycles": 0, "vis": True}, rep["replay"]["spec"]]})
         rec = json.loads(p.stdout)[0]
+        if rec.get("dump") == "ok" and rec.get("load") == "ok" and sorted(rec.get("vis") or {}) != NINE:
+            R.obligation_broken("C13 total_on_dumps", f"replay: not all nine combinations attempted: {sorted(rec.get('vis') or {})}")
         for key, v in (rec.get("vis") or {}).items():
             if v != "ok":
                 R.violation({"kind": "visualize-raises-on-dump", "replayed": True}, f"visualize {key}: {v}", rep["replay"])
